@@ -176,3 +176,118 @@ def gen_pool(rng, cfg, world) -> dict:
                 conds = [cg1.cond(sel, cfg["depth"]) for _ in conds] or []
         queries.append({"id": f"q{qi}", "quant": "an", "shape": shape, "sel": sel, "conds": conds})
     return {"vars": vars_ + extra, "queries": queries}
+
+
+# ------------------------------------------------------------------------------------------ regions
+# Syntactic regions of the query space in which the pinned engine has genuine, recorded defects
+# (/verif/known_findings.json).  A region is a predicate over the query *spec* (the input), never over an
+# outcome.  Main campaigns stay outside every region; "known:<region>" campaigns stay inside exactly one.
+
+def _walk(t, fn, under=()):
+    if isinstance(t, list):
+        if t and isinstance(t[0], str):
+            fn(t, under)
+            under = under + (t[0],)
+        for x in t:
+            _walk(x, fn, under)
+    elif isinstance(t, dict):
+        for x in t.values():
+            _walk(x, fn, under)
+
+
+def query_regions(q) -> set:
+    """Names of the known-defect regions this query spec lies in."""
+    kinds = set()
+    rep_arg = []
+    disj_under_not = []
+    mixed = []
+
+    def fn(t, under):
+        k = t[0]
+        if (k == "or" or (k == "and" and "not" in under)) and len({frozenset(_vars_in(x)) for x in t[1:]}) > 1:
+            mixed.append(1)
+        if k in ("and", "or", "not", "forall", "nest", "flat", "cat", "fp", "cp"):
+            kinds.add(k)
+        if k == "and" and "not" in under:
+            disj_under_not.append(1)      # not(and(..)) is rewritten into a disjunction
+        if k in ("fp", "cp") and len(t) > 2 and isinstance(t[2], list):
+            vs = [repr(_root_var(a)) for a in t[2]]
+            vs = [v for v in vs if v != "None"]
+            if len(vs) != len(set(vs)):
+                rep_arg.append(1)
+    _walk(q.get("conds", []), fn)
+    _walk(q.get("rule", {}), fn)
+    disj = "or" in kinds or bool(disj_under_not)
+    out = set()
+    if disj and "forall" in kinds:
+        out.add("disjunction+for_all")
+    if disj and ("flat" in kinds or "cat" in kinds):
+        out.add("disjunction+flatten")
+    if disj and "nest" in kinds:
+        out.add("disjunction+nested_query")
+    if rep_arg:
+        out.add("predicate_with_repeated_variable")
+    if mixed:
+        out.add("disjunction_over_different_variables")
+    return out
+
+
+def _vars_in(t):
+    out = set()
+
+    def fn(x, under):
+        if x[0] == "v":
+            out.add(x[1])
+        if x[0] == "nest":
+            out.add(x[1])
+    _walk(t, fn)
+    return out
+
+
+def _root_var(t):
+    while isinstance(t, list) and t:
+        if t[0] == "v":
+            return t[1]
+        if t[0] in ("attr", "idx", "call", "flat", "cat"):
+            t = t[1]
+        else:
+            return None
+    return None
+
+
+def pool_regions(pool) -> set:
+    out = set()
+    for q in pool["queries"]:
+        out |= query_regions(q)
+    return out
+
+
+def gen_world_and_pool(rng, cfg, want_region=None, tries=60):
+    """Draw (world, pool) outside every known-defect region (want_region=None) or inside exactly the given one."""
+    last = None
+    for _ in range(tries):
+        world = gen_world(rng, cfg)
+        pool = gen_pool(rng, cfg, world)
+        regs = pool_regions(pool)
+        last = (world, pool)
+        if want_region is None and not regs:
+            return world, pool
+        if want_region is not None and regs == {want_region}:
+            return world, pool
+        if want_region is not None:
+            # steer the vocabulary toward the region
+            need = {"disjunction+for_all": ["forall"], "disjunction+flatten": ["flat"],
+                    "disjunction+nested_query": ["nest"], "predicate_with_repeated_variable": ["fp", "cp"],
+                    "disjunction_over_different_variables": []}[want_region]
+            if want_region == "disjunction_over_different_variables":
+                cfg["n_vars"] = max(cfg["n_vars"], 2)
+            cfg["vocab"] = sorted(set(cfg["vocab"]) | set(need))
+            cfg["depth"] = max(cfg["depth"], 1)
+    if want_region is None:
+        # fall back: strip the offending queries' conditions down to their first atom-free form
+        world, pool = last
+        for q in pool["queries"]:
+            if query_regions(q):
+                q["conds"] = []
+        return world, pool
+    return last
